@@ -57,6 +57,31 @@ impl TryFrom<CompressionWithLevel> for Compressor {
     type Error = Error;
 
     fn try_from(value: CompressionWithLevel) -> Result<Self, Self::Error> {
+        // the encoder constructors panic on levels they cannot honour
+        match value {
+            CompressionWithLevel::Gzip(level) if level > 9 => {
+                return Err(Error::UnsupportedCompressionLevel {
+                    compressor: "gzip",
+                    level,
+                    supported: "0 to 9",
+                });
+            }
+            CompressionWithLevel::Xz(level) if level > 9 => {
+                return Err(Error::UnsupportedCompressionLevel {
+                    compressor: "xz",
+                    level,
+                    supported: "0 to 9",
+                });
+            }
+            CompressionWithLevel::Bzip2(level) if !(1..=9).contains(&level) => {
+                return Err(Error::UnsupportedCompressionLevel {
+                    compressor: "bzip2",
+                    level,
+                    supported: "1 to 9",
+                });
+            }
+            _ => {}
+        }
         match value {
             CompressionWithLevel::None => Ok(Compressor::None(Vec::new())),
             #[cfg(feature = "gzip-compression")]
